@@ -63,6 +63,7 @@ func (c *Ctx) edgeRules() []EdgeRule {
 		lits  []core.Lit
 		pos   string
 		inner ssa.CallInstruction
+		env   map[*ssa.Parameter]ssa.Value
 	}
 	for _, f := range p.ArgFuncs() {
 		var esites []edgeSite
@@ -73,13 +74,13 @@ func (c *Ctx) edgeRules() []EdgeRule {
 			bound := false
 			if p.PrivateHelper(f) {
 				for _, x := range a[1:] {
-					if prm, ok := core.Strip(x).(*ssa.Parameter); ok && prm.Parent() == f {
+					if prm, ok := peelAdd(x).(*ssa.Parameter); ok && prm.Parent() == f {
 						bound = true
 					}
 				}
 			}
 			if !bound {
-				esites = append(esites, edgeSite{call, a, core.Lits(core.Guards(call.Block())), p.InstrPos(call), call})
+				esites = append(esites, edgeSite{call, a, core.Lits(core.Guards(call.Block())), p.InstrPos(call), call, nil})
 				continue
 			}
 			for _, site := range p.Callers(f) {
@@ -94,11 +95,21 @@ func (c *Ctx) edgeRules() []EdgeRule {
 					return v
 				}
 				var b []ssa.Value
+				env := map[*ssa.Parameter]ssa.Value{}
+				for i, q := range f.Params {
+					if i < len(site.Common().Args) {
+						env[q] = site.Common().Args[i]
+					}
+				}
 				for _, x := range a {
-					b = append(b, p.Bind(core.Strip(sub(x))))
+					if _, isPrm := core.Strip(x).(*ssa.Parameter); isPrm {
+						b = append(b, p.Bind(core.Strip(sub(x))))
+					} else {
+						b = append(b, x) // e.g. g.AddOverwrite(param): described under the site's binding
+					}
 				}
 				lits := append(core.Lits(core.Guards(call.Block())), core.Lits(core.Guards(site.Block()))...)
-				esites = append(esites, edgeSite{site, b, lits, p.InstrPos(site), call})
+				esites = append(esites, edgeSite{site, b, lits, p.InstrPos(site), call, env})
 			}
 		}
 		for _, es := range esites {
@@ -115,6 +126,7 @@ func (c *Ctx) edgeRules() []EdgeRule {
 				e.Weight, e.WeightOK = addEdgeWeight, addEdgeOK
 			}
 			e.Lits = es.lits
+			c.vertexEnv = es.env
 			e.CK, e.CF, e.CNew = c.describeVertex(a[1], e.Lits)
 			e.PK, e.PF, e.PNew = c.describeVertex(a[2], e.Lits)
 			// re-weighting: consumer is an element of InEdges(provider) on a graph
@@ -127,12 +139,30 @@ func (c *Ctx) edgeRules() []EdgeRule {
 				c.relate(&e, kinds)
 				c.classify(&e, kinds)
 			}
+			c.vertexEnv = nil
 			out = append(out, e)
 		}
 	}
 	sort.SliceStable(out, func(i, j int) bool { return out[i].Call.Pos() < out[j].Call.Pos() })
 	c.edges = out
 	return out
+}
+
+// peelAdd strips conversions and g.Add / g.AddOverwrite wrappers from a vertex operand.
+func peelAdd(v ssa.Value) ssa.Value {
+	x := core.Strip(v)
+	for i := 0; i < 4; i++ {
+		call, ok := x.(*ssa.Call)
+		if !ok {
+			break
+		}
+		n := core.CalleeName(call.Common())
+		if n != core.GAdd && n != core.GAddOverwrite {
+			break
+		}
+		x = core.Strip(call.Common().Args[1])
+	}
+	return x
 }
 
 // addEdgeSummary computes the wrapper summary AddEdge(a,b) ≡ AddEdgeWeighted(a,b,k).
@@ -177,11 +207,11 @@ func (c *Ctx) addEdgeSummary() (int64, bool) {
 // describeVertex gives kinds and label-field paths of a vertex operand.
 func (c *Ctx) describeVertex(v ssa.Value, lits []core.Lit) (kinds []string, fields map[string]string, constructed bool) {
 	p := c.P
-	kinds = p.KindOf(v)
 	fields = map[string]string{}
 	x := core.Strip(v)
-	// look through g.Add(x) / g.AddOverwrite(x)
-	for {
+	// look through g.Add(x) / g.AddOverwrite(x), parameters bound for the call site being expanded, and variables
+	// captured by a local function literal
+	for i := 0; i < 8; i++ {
 		if call, ok := x.(*ssa.Call); ok {
 			n := core.CalleeName(call.Common())
 			if n == core.GAdd || n == core.GAddOverwrite {
@@ -189,7 +219,27 @@ func (c *Ctx) describeVertex(v ssa.Value, lits []core.Lit) (kinds []string, fiel
 				continue
 			}
 		}
+		if prm, ok := x.(*ssa.Parameter); ok {
+			if a, ok := c.vertexEnv[prm]; ok && a != nil {
+				x = core.Strip(a)
+				continue
+			}
+		}
+		if d := p.DerefFree(x); d != nil && d != x {
+			x = core.Strip(d)
+			continue
+		}
 		break
+	}
+	kinds = p.KindOf(v)
+	if len(kinds) != 1 || kinds[0] == "?" {
+		if al, ok := x.(*ssa.Alloc); ok {
+			if n := core.NamedOf(al.Type()); n != "" {
+				kinds = []string{n}
+			}
+		} else if ks := p.KindOf(x); len(ks) >= 1 && ks[0] != "?" {
+			kinds = ks
+		}
 	}
 	if al, ok := x.(*ssa.Alloc); ok {
 		// composite literal: fields are what is stored, the rest is zero
